@@ -268,7 +268,7 @@ def oracle_C20(run, n):
                 r = core.agree(op, a, b)
                 if r:
                     stats["disagreements"] += 1
-                    fails.append(("C20", {"alt": idx, "family": fam, "op": op}, ["model and implementation disagree under generated configuration %d: %s" % (idx, r)]))
+                    fails.append(("C20", {"seed": run.seed, "alt": idx, "family": fam, "op": op}, ["model and implementation disagree under generated configuration %d: %s" % (idx, r)]))
                     break
                 run.nontrivial.add(core.digest([idx, op]))
             run.cov["evaluations"] += len(ops)
@@ -284,7 +284,7 @@ def oracle_C20(run, n):
                     f = f["failures"]
                 if f:
                     stats["oracle_failures"] += 1
-                    fails.append(("C20", {"alt": idx, "oracle": name, "input": op["input"]}, f))
+                    fails.append(("C20", {"seed": run.seed, "alt": idx, "oracle": name, "input": op["input"]}, f))
                     break
                 run.nontrivial.add(core.digest([idx, op["input"]]))
             run.cov["evaluations"] += len(ops)
